@@ -898,7 +898,7 @@ pub fn lockstep_explore(ls: &Lockstep, sched: Sched, sched_seed: u64, iterations
     if let Some(f) = failure.as_mut() {
         if f.class == "deadlock" {
             f.class = "lockstep-deadlock".into();
-            f.detail = format!("the search read past a match the producer was waiting to have acknowledged ({})", f.detail);
+            f.detail = format!("the consumer waits for more bytes while the producer waits for the acknowledgement of a match the slice search reports: the byte-iterator search either read past the end of that match before returning it or does not return it ({})", f.detail);
         }
     }
     ExploreResult { failure, counters, executions }
